@@ -5,7 +5,8 @@
 set -u
 HERE="$(cd "$(dirname "$0")" && pwd)"
 VERIF="$(dirname "$HERE")"
-SRC="$1"; OUT="$2"; MODE="${3:-}"
+SRC="$(cd "$1" && pwd)"; OUT="$2"; MODE="${3:-}"
+case "$OUT" in /*) ;; *) OUT="$PWD/$OUT";; esac
 CRATE="${RULER_FACTS_CRATE:-ruler}"
 export CARGO_NET_OFFLINE=true
 DRV="$VERIF/.cache/driver-target/release/ruler-facts"
